@@ -11,6 +11,9 @@ pub fn read_config_file(
     let mut argument_list : Vec<String> = vec![];
     let lines = cursor.lines().into_iter();
     for boxed_line in lines {
+        if boxed_line.is_err() {
+            return Err(boxed_line.err().unwrap().to_string());
+        }
         let line = boxed_line.unwrap();
         let without_comment = strip_comment(line);
         let without_whitespaces = strip_whitespaces(without_comment.to_string());
